@@ -20,6 +20,7 @@ import (
 
 	"github.com/fabiolb/fabio/config"
 	"github.com/fabiolb/fabio/route"
+	"github.com/fabiolb/fabio/transport"
 )
 
 func init() {
@@ -68,7 +69,8 @@ func newRig() *rig {
 	r.up = httptest.NewServer(http.HandlerFunc(r.serveUpstream))
 	r.upAddr = r.up.Listener.Addr().String()
 	r.proxy = &HTTPProxy{
-		Transport: &http.Transport{MaxIdleConnsPerHost: 8},
+		// the transport fabio itself builds (main.newHTTPProxy), with a pool size that suits the harness
+		Transport: func() *http.Transport { t := transport.NewTransport(nil); t.MaxIdleConnsPerHost = 8; return t }(),
 		Lookup: func(req *http.Request) *route.Target {
 			return r.tbl.Lookup(req, "", route.Picker["rr"], route.Matcher[r.matcher], r.gc, false)
 		},
